@@ -39,7 +39,7 @@ namespace sim {
 class AllocEnv {
 public:
     static constexpr size_t GUARD = 16;
-    struct Block { unsigned char* base; size_t bytes; size_t tag; };
+    struct Block { unsigned char* base; size_t bytes; size_t tag; int arena; };
 
     void reset(size_t quarantine_len, uint32_t recycle_permille) {
         release_all();
@@ -47,9 +47,9 @@ public:
         errors_.clear();
         n_alloc_ = n_free_ = n_recycled_ = 0;
     }
-    void* allocate(size_t bytes, size_t tag) {
+    void* allocate(size_t bytes, size_t tag, int arena = 0) {
         ++n_alloc_;
-        Block b{nullptr, bytes, tag};
+        Block b{nullptr, bytes, tag, arena};
         // most recent pooled block of exactly this size
         size_t cand = pool_.size();
         for (size_t i = pool_.size(); i-- > 0;) if (pool_[i].bytes == bytes) { cand = i; break; }
@@ -71,7 +71,7 @@ public:
         live_[user] = b;
         return user;
     }
-    void deallocate(void* p, size_t bytes, size_t tag) {
+    void deallocate(void* p, size_t bytes, size_t tag, int arena = 0) {
         ++n_free_;
         auto it = live_.find(p);
         if (it == live_.end()) { error("deallocate of a block that is not live (double free or foreign pointer)"); return; }
@@ -79,6 +79,9 @@ public:
         live_.erase(it);
         if (b.bytes != bytes) error("deallocate with size " + std::to_string(bytes) + " of a block allocated with size " + std::to_string(b.bytes));
         if (b.tag != tag) error("deallocate through an allocator of a different type than the one that allocated the block");
+        if (b.arena != arena)
+            error("block obtained from allocator instance #" + std::to_string(b.arena) + " was returned through instance #" + std::to_string(arena) +
+                  ", which compares unequal to it");
         for (size_t i = 0; i < GUARD; ++i)
             if (b.base[i] != 0xA5 || b.base[GUARD + b.bytes + i] != 0x5A) { error("guard bytes around a block were overwritten"); break; }
         std::memset(b.base + GUARD, 0xDD, b.bytes);
@@ -133,19 +136,24 @@ private:
 
 inline AllocEnv& alloc_env() { static AllocEnv e; return e; }
 
+// Stateful: instances carry an arena number and compare equal iff the numbers
+// are equal (a conforming allocator may be like that). A block must go back
+// through an instance equal to the one it came from.
 template <class T>
 struct Alloc {
     using value_type = T;
     using size_type = std::size_t;
     using difference_type = std::ptrdiff_t;
+    int arena = 0;
     Alloc() noexcept = default;
-    template <class U> Alloc(const Alloc<U>&) noexcept {}  // NOLINT
-    T* allocate(std::size_t n) { return static_cast<T*>(alloc_env().allocate(n * sizeof(T), typeid(T).hash_code())); }
+    explicit Alloc(int a) noexcept : arena(a) {}
+    template <class U> Alloc(const Alloc<U>& o) noexcept : arena(o.arena) {}  // NOLINT
+    T* allocate(std::size_t n) { return static_cast<T*>(alloc_env().allocate(n * sizeof(T), typeid(T).hash_code(), arena)); }
     // (deallocate(nullptr, n) is tolerated like std::allocator tolerates it: no statement is about it)
-    void deallocate(T* p, std::size_t n) noexcept { if (p) alloc_env().deallocate(p, n * sizeof(T), typeid(T).hash_code()); }
+    void deallocate(T* p, std::size_t n) noexcept { if (p) alloc_env().deallocate(p, n * sizeof(T), typeid(T).hash_code(), arena); }
     template <class U> struct rebind { using other = Alloc<U>; };
-    template <class U> bool operator==(const Alloc<U>&) const noexcept { return true; }
-    template <class U> bool operator!=(const Alloc<U>&) const noexcept { return false; }
+    template <class U> bool operator==(const Alloc<U>& o) const noexcept { return arena == o.arena; }
+    template <class U> bool operator!=(const Alloc<U>& o) const noexcept { return arena != o.arena; }
 };
 
 } // namespace sim
